@@ -8,6 +8,7 @@ package cose
 
 import (
 	"bytes"
+	"crypto"
 	"crypto/ecdsa"
 	"crypto/ed25519"
 	"crypto/elliptic"
@@ -419,4 +420,15 @@ func vAliases(x any, buf []byte) bool {
 	}
 	walk(reflect.ValueOf(x), 0)
 	return found
+}
+
+// vEdSign / vRSAPSSSign: the signing primitives of an independent implementation
+func vEdSign(key ed25519.PrivateKey, msg []byte) []byte { return ed25519.Sign(key, msg) }
+
+func vRSAPSSSign(key *rsa.PrivateKey, hash int, digest []byte) []byte {
+	sig, err := rsa.SignPSS(cryptorand.Reader, key, crypto.Hash(hash), digest, &rsa.PSSOptions{SaltLength: rsa.PSSSaltLengthEqualsHash})
+	if err != nil {
+		panic(err)
+	}
+	return sig
 }
